@@ -254,6 +254,9 @@ class Scn:
             self.handles.append(r.value)
             r.handle = len(self.handles) - 1
             r.step_index = len(self.log) - 1
+            self.log[-1].params["hid"] = r.handle
+        else:
+            self.log[-1].params["hid"] = len(self.handles)
         return r
 
     def _href(self, h):
